@@ -1,53 +1,36 @@
-(* C03: statements about the SIE cursor machine (Sie.v) that the unchanged code violates *)
+(* C03: statements about the SIE cursor machine (Sie.v) *)
 From Coq Require Import ZArith List Bool Lia.
 From GD Require Import C04.Bytes C03.Write C03.Sie.
 Import ListNotations.
 Local Open Scope Z_scope.
 
-Definition sie_step (put : sample -> Z -> list sample -> sieh -> option sieh) (zero : sample)
-  (oh : option sieh) (w : Z * list sample) : option sieh :=
-  match oh with Some h => put zero (fst w) (snd w) h | None => None end.
+Definition sie_step (zero : sample) (oh : option sie) (w : Z * list sample) : option sie :=
+  match oh with Some h => sie_put zero (fst w) (snd w) h | None => None end.
 
 (* a history of gd_putdata calls on a new field *)
-Definition sie_run (zero : sample) (hist : list (Z * list sample)) : option sieh :=
-  fold_left (sie_step sie_put zero) hist (Some (sieh_open zero [])).
-Definition sie_run_flushed (zero : sample) (hist : list (Z * list sample)) : option sieh :=
-  fold_left (sie_step sie_put_flushed zero) hist (Some (sieh_open zero [])).
+Definition sie_run (zero : sample) (hist : list (Z * list sample)) : option sie :=
+  fold_left (sie_step zero) hist (Some (sie_open zero [])).
 
 Definition spec_of (zero : sample) (hist : list (Z * list sample)) : list sample :=
   apply_writes zero [] (map (fun w => (Z.to_nat (fst w), snd w)) hist).
 
-(* what C03 asks of the SIE codec: every write succeeds and the file expands to the flat array *)
-Definition sie_refines_statement : Prop :=
-  forall zero hist, Forall (fun w => 0 <= fst w) hist ->
-    exists h, sie_run zero hist = Some h /\ sie_abs h = spec_of zero hist.
-
-Theorem sie_refines_refuted : ~ sie_refines_statement.
-Proof.
-  intros H.
-  destruct (H [0] [(0, [[1]; [0]]); (2, [[0]; [0]; [1]]); (4, [[0]])]) as (h & R & A).
-  { repeat constructor; cbn; lia. }
-  vm_compute in R. inversion R; subst h. vm_compute in A. discriminate.
-Qed.
-
-(* with a _GD_GetNRec that sees the whole file the same history is handled correctly *)
-Example sie_witness_ok_when_flushed :
-  exists h, sie_run_flushed [0] [(0, [[1]; [0]]); (2, [[0]; [0]; [1]]); (4, [[0]])] = Some h /\
-            sie_abs h = spec_of [0] [(0, [[1]; [0]]); (2, [[0]; [0]; [1]]); (4, [[0]])].
-Proof. eexists. split; vm_compute; reflexivity. Qed.
-
-(* what C04 asks of the file: record ends strictly increase -- violated even then *)
+(* what C04 asks of the file: record ends strictly increase *)
 Definition sie_increasing_statement : Prop :=
   forall zero hist h, Forall (fun w => 0 <= fst w) hist ->
-    sie_run_flushed zero hist = Some h -> ends_increasing (-1) (recs (sh h)).
+    sie_run zero hist = Some h -> ends_increasing (-1) (recs h).
 
 Theorem sie_increasing_refuted : ~ sie_increasing_statement.
 Proof.
   intros H.
   specialize (H [0] [(0, [[1]; [2]]); (1, [[3]]); (1, [[4]])]).
   vm_compute in H.
-  assert (F : Forall (fun w : Z * list (list Z) => (fst w ?= 0) = Gt \/ (0 ?= fst w) <> Gt) [] -> True) by auto.
   match type of H with forall h, ?P -> _ => assert (HP : P) end.
   { repeat constructor; cbn; discriminate. }
   specialize (H _ HP eq_refl). destruct H as (_ & H2 & _). discriminate H2.
 Qed.
+
+(* the witness history of the former stale-size defect is now handled *)
+Example sie_former_witness_ok :
+  exists h, sie_run [0] [(0, [[1]; [0]]); (2, [[0]; [0]; [1]]); (4, [[0]])] = Some h /\
+            sie_abs h = spec_of [0] [(0, [[1]; [0]]); (2, [[0]; [0]; [1]]); (4, [[0]])].
+Proof. eexists. split; vm_compute; reflexivity. Qed.
